@@ -67,6 +67,24 @@ def scalar_forms(n):
         [("int", int(n)), ("np.int64", np.int64(n)), ("np.int32", np.int32(n))]
 
 
+ERRSTATES = ({"all": "warn"}, {"all": "raise"}, {"under": "raise"}, {"over": "raise", "invalid": "raise", "divide": "raise"})
+
+
+def under_errstates(f, states=ERRSTATES):
+    """Evaluate f() under process-wide numpy error states a caller may legitimately have in force.  Yields (name, outcome) with outcome =
+    ("value", v) or ("raised", exception) - FloatingPointError / RuntimeWarning are an acceptable way to REPORT a floating-point event;
+    a value that differs from the value under the default state is not."""
+    import warnings
+    for st in states:
+        name = ",".join(f"{k}={v}" for k, v in st.items())
+        with np.errstate(**st), warnings.catch_warnings():
+            warnings.simplefilter("ignore")
+            try:
+                yield name, ("value", f())
+            except (FloatingPointError, RuntimeWarning) as e:
+                yield name, ("raised", e)
+
+
 def same(a, b, rtol=0.0, atol=0.0):
     a, b = np.asarray(a, dtype=float), np.asarray(b, dtype=float)
     if a.shape != b.shape:
